@@ -349,8 +349,8 @@ var Hostile = [][]byte{
 	{0x89, 'I', 'V', 'G', 0xff, 0xff, 0xff, 0xff},                                                             // 2^30-1 chunks, no data
 	{0x89, 'I', 'V', 'G', 0x02, 0xff, 0xff, 0xff, 0xff},                                                       // chunk length 2^30-1
 	{0x89, 'I', 'V', 'G', 0x02, 0xff, 0xff, 0xff, 0xff, 0x00},                                                 // idem + MID
-	{0x89, 'I', 'V', 'G', 0x02, 0x1b, 0x00, 0x04, 0x00, 0x00, 0x50, 0x50, 0xb0, 0xb0, 0xc0, 0x80, 0x80, 0xe1}, // viewBox chunk, declared length 6 + 2^16
-	{0x89, 'I', 'V', 'G', 0x02, 0x1b, 0x00, 0x00, 0x04, 0x00, 0x50, 0x50, 0xb0, 0xb0},                         // idem, 6 + 2^24
+	{0x89, 'I', 'V', 'G', 0x02, 0x17, 0x00, 0x04, 0x00, 0x00, 0x50, 0x50, 0xb0, 0xb0, 0xc0, 0x80, 0x80, 0xe1}, // viewBox chunk, declared length 5 + 2^16
+	{0x89, 'I', 'V', 'G', 0x02, 0x17, 0x00, 0x00, 0x04, 0x00, 0x50, 0x50, 0xb0, 0xb0},                         // idem, 5 + 2^24
 	{0x89, 'I', 'V', 'G', 0x02, 0x04, 0x02, 0x3f},                                                             // palette N=63, no colours
 	{0x89, 'I', 'V', 'G', 0x02, 0x04, 0x02, 0xff},                                                             // palette N=63, 4 bytes, no colours
 	{0x89, 'I', 'V', 'G', 0x02, 0x02, 0x04},                                                                   // unknown MID 2
